@@ -260,7 +260,12 @@ def families() -> dict[str, Family]:
         "complex": lambda: (t1.a == 1) & (t1.b == 2) | (t1.c == 3),
         "nested": lambda: NestedCriterion(Equality.eq, Boolean.and_, t1.a, t1.b, t1.c),
         "value": lambda: P.ValueWrapper(5),
+        "not_field": lambda: ~t1.payload, "not_in": lambda: t1.a.isin([1, 2]).negate().negate() if False else P.terms.Not(t1.a.isin([1, 2])),
     }, [
+        # methods reached through dynamic attribute lookup (Not.__getattr__ re-wraps the delegate's result)
+        L("dyn#has_key", "has_key", lambda r: r.has_key("k")),
+        L("dyn#get_json_value", "get_json_value", lambda r: r.get_json_value("k")),
+        L("dyn#isin", "isin", lambda r: r.isin([7, 8])),
         L("as_", "as_", lambda r: r.as_("tz")),
         L("replace_table", "replace_table", lambda r: r.replace_table(t1, T("t1new"))),
         L("replace_table#2", "replace_table", lambda r: r.replace_table(t2, T("t2new"))),
